@@ -178,38 +178,40 @@ Proof. exact chain_terminates_on. Qed.
 Print Assumptions pipeline_terminates_on_acceptable_rows.
 
 (* Loki / Prometheus labels, label values, series; Tempo tags, tag values, search by tags; the batch forwarders of
-   /api/v2/search/tags|tag/../values and of TraceQL search; the TraceQL row goroutine with its two consumers: whatever
-   arrives on the first channel (any rows, conversion errors, early end), no goroutine is ever left behind. *)
-Theorem forwarding_pipelines_never_leak : forall (c : fchain) (rows : list fmsg),
-  let c0 := init_config rows (fstages c) in
-  Acc (fun c' c1 : config Z fmsg => step c1 c') c0 /\
-  forall cf, star c0 cf -> quiescent cf -> crashed cf = true \/ all_done (cells cf).
-Proof. exact fwd_chain_no_leak. Qed.
-Print Assumptions forwarding_pipelines_never_leak.
-
-(* All of them except the two chains that start with the TraceQL row goroutine never crash either, for all rows. *)
-Theorem forwarding_pipelines_terminate : forall (c : fchain) (rows : list fmsg), no_traceql_rows c = true ->
+   /api/v2/search/tags|tag/../values and of TraceQL search; the TraceQL row goroutine with its two consumers -- whatever
+   arrives on the first channel (any rows, conversion errors, arrays of any lengths, early end) and wherever the client
+   goes away: every interleaving is finite, never crashes and can only end with every goroutine returned. *)
+Theorem forwarding_pipelines_terminate : forall (c : fchain) (rows : list fmsg),
   let c0 := init_config rows (fstages c) in
   Acc (fun c' c1 : config Z fmsg => step c1 c') c0 /\
   forall cf, star c0 cf -> crashed cf = false /\ (quiescent cf -> all_done (cells cf)).
 Proof. exact fwd_chain_terminates. Qed.
 Print Assumptions forwarding_pipelines_terminate.
 
-(* TraceQLRequestProcessor runs without recover and indexes durations / timestamps by the positions of span_ids: on
-   rows whose three array columns are consistent (what groupArray over the same rows yields) every chain terminates
-   without a crash ... *)
-Theorem traceql_pipelines_terminate_partial : forall (c : fchain) (rows : list fmsg), forallb fmsg_ok rows = true ->
-  let c0 := init_config rows (fstages c) in
+(* With or without the comparison of the three array lengths in TraceQLRequestProcessor (k): no goroutine is left behind. *)
+Theorem forwarding_pipelines_never_leak : forall (k : bool) (c : fchain) (rows : list fmsg),
+  let c0 := init_config rows (fstages_gen k c) in
   Acc (fun c' c1 : config Z fmsg => step c1 c') c0 /\
-  forall cf, star c0 cf -> crashed cf = false /\ (quiescent cf -> all_done (cells cf)).
-Proof. exact fwd_chain_terminates_on. Qed.
-Print Assumptions traceql_pipelines_terminate_partial.
+  forall cf, star c0 cf -> quiescent cf -> crashed cf = true \/ all_done (cells cf).
+Proof. exact fwd_chain_no_leak. Qed.
+Print Assumptions forwarding_pipelines_never_leak.
 
-(* ... and on any other row the process exits: the condition is needed (a database that evaluates the statement cannot
-   return such a row; the harness does not generate it on the unchanged tree). *)
-Theorem traceql_unrecovered_index_refuted : ~ nofault_node tq_node /\ exists q, fst (fwd_outcome q) = OCrash.
-Proof. split; [exact tq_faults_on_ragged_rows|exists ragged_request; rewrite traceql_ragged_row_crashes; reflexivity]. Qed.
-Print Assumptions traceql_unrecovered_index_refuted.
+(* That comparison (fix 51fb0f7) is needed: TraceQLRequestProcessor runs without recover and indexes durations and
+   timestamps by the positions of span_ids; without it the body faults on a ragged row, the witness chain crashes
+   (observed on the real code: corpus traceql-ragged-arrays), and the chains terminated only on rows whose arrays are
+   long enough (instance of pipeline_terminates_on_acceptable_rows). *)
+Theorem traceql_length_check_needed :
+  ~ nofault_node (tq_node_gen false) /\
+  fst (run run_fuel false (cells (init_config (map FRow ragged_rows) (fstages_gen false ChTraceQL)))) = RCrash /\
+  fwd_outcome ragged_request = (O2xx, 2) /\
+  forall (c : fchain) (rows : list fmsg), forallb fmsg_ok rows = true ->
+    let c0 := init_config rows (fstages_gen false c) in
+    forall cf, star c0 cf -> crashed cf = false /\ (quiescent cf -> all_done (cells cf)).
+Proof.
+  split; [exact tq_faults_on_ragged_rows|]. split; [exact traceql_ragged_row_crashed_before|].
+  split; [exact traceql_ragged_row_answered|]. intros c rows H. exact (proj2 (fwd_chain_terminates_on false c rows H)).
+Qed.
+Print Assumptions traceql_length_check_needed.
 
 (* Bounded work: a request of these endpoints issues at most 2 SQL statements (version bootstrap not counted), except a
    TraceQL search whose complexity estimate cx reaches the threshold: 1 + ceil(cx / 10^7), the portion loop of
